@@ -56,6 +56,52 @@ def queries(indexed):
     return qs
 
 
+LIFE_PREFIX = os.path.join(core.BUILD, 'out', 'c17b-life-%d' % os.getpid())
+LIFE_CFG = 'SPECIFICATION TraceSpec\nINVARIANTS\n  NoLiveSnapshotHoldsReleasedPart\n  CurrentIsLive\n  RemovedWereReleased\nPOSTCONDITION TraceAccepted\n'
+
+
+def validate_lifecycle(c, cap=0):
+    """the life-cycle traces of every measure tsTable of the cluster processes (liaison write queue, data nodes) and of the
+    stand-alone server must be behaviours of TSTableTrace.tla - in particular every publication is one of Introduce / Flush /
+    Merge (inputs leave when the output enters) / Sync"""
+    import glob
+    from vf import tlc
+    n = ev = 0
+    for f in sorted(glob.glob(LIFE_PREFIX + '.*')):
+        lines = open(f).read().splitlines()
+        os.remove(f)
+        lines = lines[: (cap or (12000 if c.quick else 40000))]
+        if len(lines) < 10:
+            continue
+        r = tlc.run('TSTableTrace.tla', 't.cfg', tag='c17bt', files={'t.cfg': LIFE_CFG, 'trace.ndjson': '\n'.join(lines) + '\n'}, workers=1, timeout=1500)
+        if r.ok:
+            n += 1
+            ev += len(lines)
+            continue
+        if r.timed_out or (r.error and 'TraceAccepted' not in r.output and not r.violated):
+            c.inconclusive('life-cycle trace validation did not run: %s\n%s' % (r.error, r.output[-1500:]))
+        k = max(r.depth - 1, 0)
+        bad = lines[k] if k < len(lines) else 'end'
+        e = json.loads(bad) if bad != 'end' else {}
+        sig = 'cluster-lifecycle-trace-rejected:%s' % e.get('event', 'end')
+        if e.get('event') == 'Replace':
+            sig += ':creator-%s' % e.get('creator')
+        # a schedule-dependent finding: it must show up again when the family is replayed once more
+        c.cluster_life_rejections = getattr(c, 'cluster_life_rejections', []) + [(sig, 'event %d of %d rejected by TSTableTrace.tla: %s; previous publication events of the table: %s' % (
+            k + 1, len(lines), bad[:400], [x[:200] for x in lines[:k] if '"Replace"' in x and '"tbl":%s,' % e.get('tbl') in x][-3:]), lines[max(0, k - 80): k + 1])]
+    return n, ev
+
+
+def piled_days(b):
+    import re
+    pat = ''
+    for st in b[1:]:
+        if st['last'].get('op') == 'write':
+            days = {r['t'] <= 2 for r in st['last']['rows']}
+            pat += 'A' if days == {True} else 'B' if days == {False} else 'X'
+    return pat if re.search(r'A+B{2,}|B+A{2,}', pat) else None
+
+
 def families(c):
     n = int(os.environ.get('VERIF_C17B_SIMS', 0))
     base = dict(series=S, times=T, versions=[1, 2], versioned=True, maxrows=1, maxtotal=3, maxops=3, graphops=0, simops=10,
@@ -65,6 +111,14 @@ def families(c):
     indexed = dict(base, queries=queries(True), index='inverted', tags_by_series=True)
     fams = [dict(plain, name='cluster-2n2s0r-two-days', engine='measure-cluster', sims=n or (25 if c.quick else 250)),
             dict(indexed, name='cluster-2n2s0r-two-days-indexed', engine='measure-cluster', sims=n or (15 if c.quick else 150))]
+    # runs of single-segment batches that reach the liaison back to back: its flusher then finds several memory parts of
+    # one time segment next to those of another one in ONE round (merged segment by segment before they are shipped);
+    # the day patterns (A = previous day, B = base day) with a repeated day after a change are picked among many
+    # -simulate behaviours
+    fams.append(dict(plain, name='cluster-2n2s0r-piled-segments', engine='measure-cluster', maxrows=1, maxtotal=3, maxops=3,
+                     sims=n or (600 if c.quick else 3000), simops=6, script=['write', 'write', 'write', 'write', 'write', 'queryall'],
+                     queries=queries(False)[:6], select=piled_days, per_class=1 if c.quick else 4, sim=dict(maxrows=1, maxtotal=5),
+                     lifecycle=LIFE_PREFIX, procs=1, env={'VERIF_CLUSTER_FLUSH': '250ms'}))
     if not c.quick:
         # other node / shard / replica counts (one cluster per harness process)
         fams.append(dict(plain, name='cluster-3n4s1r-two-days', engine='measure-cluster-3n4s1r', sims=n or 120))
@@ -125,6 +179,25 @@ def run(c, binp=None):
 def _run(c, binp, fams):
     rejected = selftest(c, binp, fams[0])
     tot, stats, samples, nontriv, cover = ec.run_families(c, fams, binp, nontrivial, procs=2)
+    ltraces, levents = validate_lifecycle(c)
+    first = list(getattr(c, 'cluster_life_rejections', []))
+    if first:
+        # replay the traced family once more: a rejection that shows up again is reported
+        # (what the liaison's flusher finds in one round depends on timing: up to 4 further replays, whole traces)
+        c.cluster_life_rejections = []
+        piled = [f for f in fams if f.get('lifecycle')]
+        for attempt in range(4):
+            ec.run_families(c, piled, binp, nontrivial, procs=1)
+            validate_lifecycle(c, cap=60000)
+            if {s for s, _, _ in c.cluster_life_rejections} & {s for s, _, _ in first}:
+                break
+        again = {s for s, _, _ in c.cluster_life_rejections}
+        for sig, detail, ctx in first:
+            if sig in again:
+                c.report(sig, detail, {'trace_tail': ctx, 'harness': 'eng/cluster+lifecycle'})
+            else:
+                c.unreproduced('%s seen once but not when the family was replayed again: %s' % (sig, detail[:300]))
+    c.log('cluster life-cycle: %d trace(s), %d events accepted by TSTableTrace.tla (liaison write queue, data nodes, stand-alone tables)' % (ltraces, levents))
     waits = max(1, stats.get('delivery_waits', 0))
     return dict(
         states=tot['states'], transitions=tot['transitions'], traces_validated_against_impl=0,
